@@ -47,4 +47,18 @@ CHECKS = {
                 'controller\'s fix_parameters is covered only through the LogLikelihood / population wrappers it delegates to.',
         'technique': 'Coq proof (refinement of a state machine, induction over histories) + exact vm_compute correspondence',
     },
+    'C20': {
+        'text': 'Machine-checked, axiom-free proof (Properties/C20.v): for every multiset of samples (ties included) and '
+                'every bulk probability a/b, whenever both rank-based limits exist they are sample values enclosing at '
+                'least that fraction of the samples; bands are nested for increasing probabilities; the polygon has one '
+                'upper and one lower vertex per time point; there is exactly one marker trace per individual holding '
+                'exactly its (time, value) pairs of the chosen observable, and dose traces hold exactly its dose rows. '
+                'Tied to /repo on every run: plotly traces of the four real plot classes on generated frames / sample '
+                'sets are compared exactly (vm_compute) with the model; frames must be unchanged.',
+        'note': 'Trusted: Coq kernel + stdlib, no axioms; model Model/Plots.v hand-written (pandas average ranks, '
+                'first-appearance ordering); exact tie uses dyadic bulk probabilities so that chi\'s float comparisons '
+                'coincide with the rational ones; pandas/plotly trusted as executed; ResidualPlot is covered only by '
+                'the two fix: commits, not by a model.',
+        'technique': 'Coq proof (counting argument over lists, nia) + exact vm_compute correspondence',
+    },
 }
